@@ -1420,6 +1420,11 @@ fn expected_fraction(w: &World, so: &StepObs, v: usize) -> Option<i128> {
     // block info of pre == block of post for a transaction
     let a: Option<Uint128> = w.vq(v, &VammQuery::TwapPrice { interval }).ok();
     let o: Option<Uint128> = w.vq(v, &VammQuery::UnderlyingTwapPrice { interval }).ok();
+    // the vAMM's time-weighted price over the funding interval, recomputed from its raw reserve snapshots
+    let a = match (a, w.ref_spot_twap(v, interval)) {
+        (Some(x), Some(r)) if x.u128().abs_diff(r) > 3 + r / 1_000_000_000 => Some(Uint128::new(r)),
+        (x, _) => x,
+    };
     *w.store.0.borrow_mut() = post.kv;
     match (a, o) {
         (Some(a), Some(o)) => Some(tdiv(
